@@ -27,7 +27,7 @@ from contracts.resource import busy, decode
 
 
 class IndBase(Contract):
-    props = ("C08", "C05", "C07")
+    props = ("C08", "C05", "C07", "C06")
     task_sets = (("Fm",), ("Fm", "Vo"), ("Fo", "Fm"), ("Vm", "Fm", "Fo"))
     horizons = ("int",)
     with_worker = True
@@ -101,7 +101,9 @@ class IndBase(Contract):
         pb = ctx["pb"]
         registered = any(v is ctx["ind"] for v in pb.indicators.values())
         out = [
-            Clause("equals[indicator = definition on the schedule]", goal, hyps=A, props=("C08",), kind="equals", bounded=self.bounded, regions=self.regions(P, ctx, case)),
+            # (C06: with an optional task in the problem the definition counts scheduled tasks only -- a task that is
+            # left out contributes to no indicator or objective)
+            Clause("equals[indicator = definition on the schedule]", goal, hyps=A, props=("C08", "C06") if any(t.optional for t in ctx["tasks"]) else ("C08",), kind="equals", bounded=self.bounded, regions=self.regions(P, ctx, case)),
             Clause("state[registered with the problem]", z3.BoolVal(registered), props=("C08",), kind="state"),
         ]
         out += self.observer_clause(P, ctx, case, A)
